@@ -295,6 +295,34 @@ def highlevel(chk, rng, quick):
                 chk.violation({"kind": "pi_highlevel", "dim": D}, "interaction holds a writable view of the flow velocity")
 
 
+def small_dt_large_clock(chk):
+    """the integral advances by dt * mismatch with the dt that was PASSED, however large the forcing clock already is and whatever the
+    scalar type of dt (a clock of 4096 has a single-precision spacing of 4.9e-4: the step must not be derived from the clock)."""
+    from sopht.numeric.immersed_boundary_ops import VirtualBoundaryForcing
+
+    for D in (2, 3):
+        for real_t in (np.float32, np.float64):
+            for t0 in (0.0, 4096.0):
+                o = VirtualBoundaryForcing(virtual_boundary_stiffness_coeff=real_t(KK), virtual_boundary_damping_coeff=real_t(CC), grid_dim=D, dx=real_t(0.5),
+                                           num_lag_nodes=3, real_t=real_t, start_time=t0)
+                grid = (8, 12) if D == 2 else (8, 9, 13)
+                vel = np.full((D,) + grid, 1.5, dtype=real_t)
+                pos = (np.array([[2, 4, 6], [3, 3, 4], [2, 3, 5]][:D]) + 0.5).astype(real_t) * real_t(0.5)
+                vb = np.full((D, 3), -0.5, dtype=real_t)
+                o.compute_interaction_force_on_lag_grid(eul_grid_velocity_field=vel, lag_grid_position_field=pos, lag_grid_velocity_field=vb)
+                vm = o.lag_grid_velocity_mismatch_field.astype(np.float64).copy()
+                dts = [real_t(3 * 2.0**-12), real_t(5 * 2.0**-13), real_t(2.0**-16)]
+                for dt in dts:
+                    o.time_step(dt=dt)
+                want = sum(float(dt) for dt in dts) * vm
+                chk.traces += 1
+                chk.count(("small dt", D, real_t.__name__, t0))
+                eps = float(np.finfo(real_t).eps)
+                if np.abs(o.lag_grid_position_mismatch_field.astype(np.float64) - want).max() > 8 * eps * np.abs(want).max():
+                    chk.violation({"kind": "pi_small_dt", "dim": D}, f"VirtualBoundaryForcing D={D} {real_t.__name__} start_time={t0}: after steps {[float(x) for x in dts]} the integral is "
+                                  f"{np.unique(o.lag_grid_position_mismatch_field)} but sum dt_i * mismatch = {np.unique(want)}")
+
+
 def apalache_induction(chk):
     """unbounded histories / unbounded integers: IndInv is inductive (Apalache, SMT)."""
     import shutil
@@ -376,6 +404,7 @@ def run(chk: core.Check):
                     chk.sample([(s["last"]["act"], s["last"]["b"], s["last"]["dt"]) for s in beh])
     chk.extra["behaviours_replayed"] = nbeh
     highlevel(chk, rng, quick)
+    small_dt_large_clock(chk)
     chk.assumptions += [
         "the law is identical and independent per marker and component: the model carries one representative scalar per body; the "
         "replay checks every marker/component of the real arrays against it",
